@@ -86,6 +86,13 @@ func (w *sessionResponseWriter) WriteHeader(statusCode int) {
 		// Multiple calls ot WriteHeader are no-ops
 		return
 	}
+	if statusCode >= 100 && statusCode <= 199 {
+		// Informational responses (e.g. 103 Early Hints) are not the final response:
+		// pass them on and keep intercepting the headers of the response that follows.
+		w.Header().Del("Set-Cookie")
+		w.wrapped.WriteHeader(statusCode)
+		return
+	}
 	w.wroteHeader = true
 	header := w.Header()
 	cookiesToAdd := (&http.Response{Header: header}).Cookies()
